@@ -17,11 +17,35 @@ def ctrl_case(body, labels, opt, cfg0=None, name="S", tag=None):
     return Case(compile_line(cfg, src), src, cfg, {"body": body, "labels": labels, "name": name, "opt": opt, "tag": tag})
 
 # ---------------- C01 ----------------
+def nested_loops(g):
+    """Two or three loops inside each other (optionally with a switch layer), each with its own
+    conditional break / continue: every jump must bind to the innermost enclosing loop / switch."""
+    r = g.r
+    def jump(kinds): return ("if", [(g.cond(0, 1), [(r.choice(kinds),)])], None)
+    def loop(body):
+        k = r.choice(["while", "while", "do", "inf"])
+        if k == "while": return ("while", g.cond(0, 1), body)
+        if k == "do": return ("do", body, g.cond(0, 1))
+        return ("while", None, body[:1] + [jump(["break"])] + body[1:])
+    inner = [g.cmd(), jump(["continue", "continue", "break"]), g.cmd()]
+    if r.random() < 0.3: inner.append(("continue",))
+    cur = loop(inner)
+    for _ in range(r.choice([1, 1, 2])):
+        mid = [g.cmd(), cur, g.cmd()]
+        if r.random() < 0.5: mid.insert(r.choice([0, 1, 2, 3]), jump(["continue", "break"]))
+        if r.random() < 0.35:
+            # a switch between the loops: break leaves the switch, also from its default case
+            cases = [(1, [g.cmd()]), (None, [g.cmd(), jump(["break"]), g.cmd()]), (2, [cur, jump(["break"]), g.cmd()])]
+            r.shuffle(cases)
+            mid = [g.cmd(), ("switch", ("var", "VAR_A"), cases), g.cmd()]
+        cur = loop(mid)
+    return [g.cmd(), cur, g.cmd()]
+
 def gen_C01(rnd, n, tier):
     out = []
     for i in range(n):
         g = G(rnd, maxdepth=3 if tier == "quick" else 4)
-        body = g.body()
+        body = nested_loops(g) if i % 5 == 4 else g.body()
         for opt in (True, False): out.append(ctrl_case(body, list(g.labels), opt))
     return out
 
